@@ -506,7 +506,7 @@ fn crob_of(seed: u32) -> (Group12Var1, Vec<u8>) {
     (c, ra::crob(code, count, on, off, 0))
 }
 
-fn build_cmds(hs: &[CmdH]) -> (CommandHeaders, Vec<u8>) {
+pub fn build_cmds(hs: &[CmdH]) -> (CommandHeaders, Vec<u8>) {
     let mut b = CommandBuilder::new();
     let mut expect = vec![];
     for h in hs {
@@ -595,7 +595,7 @@ fn build_cmds(hs: &[CmdH]) -> (CommandHeaders, Vec<u8>) {
 
 /// encode the request with the library and with the reference; None = the description is outside the builders' domain
 fn encode_both(r: &Req) -> Option<(u8, Result<Vec<u8>, String>, Vec<u8>)> {
-    let mut buf = vec![0u8; 8192];
+    let mut buf = vec![0u8; 32768];
     let mut cursor = WriteCursor::new(&mut buf);
     let seq = Sequence::new(5);
     let mut lib = |function: FunctionCode,
@@ -1019,7 +1019,7 @@ pub fn run_request(r: &Req) -> CaseOut {
     let lib = match lib {
         Ok(l) => l,
         Err(e) => {
-            // the only legitimate failure is running out of buffer space; 8 KiB is ample for every generated request
+            // the only legitimate failure is running out of buffer space; 32 KiB is ample for every generated request (3 headers x 258 objects x 12 octets)
             out.fail(Fail::new(
                 "R-builder-error",
                 format!("request builder failed: {e}"),
@@ -1268,6 +1268,7 @@ pub fn run<C: Codec>(tier: Tier) -> i32 {
     ctx.run::<Writers>();
     ctx.run::<crate::verif::props::c09a::AttrValues>();
     ctx.run::<crate::verif::props::c09a::AttrResponses>();
+    ctx.run::<crate::verif::props::c09e::Echoes>();
     ctx.finish()
 }
 
@@ -1277,4 +1278,5 @@ pub fn replay<C: Codec>(text: &str, known: &[Known]) -> Option<i32> {
         .or_else(|| replay_file::<C, Writers>(text, known))
         .or_else(|| replay_file::<C, crate::verif::props::c09a::AttrValues>(text, known))
         .or_else(|| replay_file::<C, crate::verif::props::c09a::AttrResponses>(text, known))
+        .or_else(|| replay_file::<C, crate::verif::props::c09e::Echoes>(text, known))
 }
